@@ -141,9 +141,13 @@ fn drive_lsp(text: &str, out: &mut Vec<(String, String)>, counters: &mut u64) ->
         reqs.push(("textDocument/prepareRename", json!({"textDocument": {"uri": uri}, "position": {"line": l, "character": 1}})));
     }
     reqs.push(("textDocument/definition", json!({"textDocument": {"uri": uri}, "position": {"line": lines + 5, "character": 0}})));
+    let mut timing: BTreeMap<&str, f64> = BTreeMap::new();
     for (m, p) in reqs {
         *counters += 1;
-        match s.request(m, p) {
+        let t0 = std::time::Instant::now();
+        let res = s.request(m, p);
+        *timing.entry(m).or_insert(0.0) += t0.elapsed().as_secs_f64();
+        match res {
             Outcome::Result(_) | Outcome::Error(..) => {}
             Outcome::Watchdog => {
                 s.kill();
@@ -151,6 +155,9 @@ fn drive_lsp(text: &str, out: &mut Vec<(String, String)>, counters: &mut u64) ->
             }
             o => out.push((format!("{}:{:?}", m, std::mem::discriminant(&o)), format!("{} -> {:?}", m, o))),
         }
+    }
+    if std::env::var("VERIF_TIMING").is_ok() {
+        eprintln!("timing per method (s): {:?}", timing);
     }
     // every panic on any server thread is a finding, also when it was turned into an error response
     for p in mon::drain_thread_panics() {
